@@ -472,3 +472,75 @@ func handlerPanic(c *ctx, rt string) {
 	c.count("handler-panic", 1)
 	c.emit(obj{"op": "handlers-order", "kind": "handler-panic", "rt": rt, "n": "kept", "obs": obj{"events": []string{}, "cached": cached, "missing": missing}})
 }
+
+// evictDuringUpdate: a partial update of a merge type (route tables, endpoint sets) is being applied - a registered handler
+// takes its time - when the cleaner evicts ANOTHER, idle name of that type. Update and eviction exclude each other (both
+// run under the manager lock): whichever comes first, afterwards the evicted name is neither cached nor subscribed; an
+// update that does not even mention the name can never bring it back.
+func evictDuringUpdate(c *ctx, rt string) {
+	w, err := newWorld(worldOpts{ndsNotRequired: true, fetchTimeout: 300 * time.Millisecond})
+	if err != nil {
+		fmt.Println("c07h: world:", err)
+		return
+	}
+	defer w.close()
+	T := rtOf(rt)
+	w.m.VerifWatch(T, "idle", false)
+	w.m.VerifWatch(T, "busy", false)
+	w.settle()
+	w.push(mkResp(urlOf(rt), "v1", "n1", []*anypb.Any{anyStamped(rt, "idle", "idle#1"), anyStamped(rt, "busy", "busy#1")}))
+	entered, gate := make(chan struct{}, 1), make(chan struct{})
+	var armed int32 // (the registration itself replays the cache to the handler: that call is not the one to park)
+	w.m.RegisterXDSUpdateHandler(T, func(res map[string]xdsresource.Resource) {
+		if atomic.LoadInt32(&armed) == 0 {
+			return
+		}
+		select {
+		case entered <- struct{}{}:
+			<-gate // a slow handler, once
+		default:
+		}
+	})
+	atomic.StoreInt32(&armed, 1)
+	w.feed(mkResp(urlOf(rt), "v2", "n2", []*anypb.Any{anyStamped(rt, "busy", "busy#2")}))
+	order := "update parked in its handler"
+	select {
+	case <-entered:
+	case <-time.After(3 * time.Second):
+		order = "the handler never ran"
+	}
+	evicted := make(chan struct{})
+	go func() { w.m.VerifEvict(T, "idle"); close(evicted) }()
+	evictedEarly := false
+	select {
+	case <-evicted:
+		evictedEarly = true // the eviction did not have to wait for the update
+	case <-time.After(60 * time.Millisecond):
+	}
+	close(gate)
+	hang := false
+	select {
+	case <-evicted:
+	case <-time.After(4 * time.Second):
+		hang = true
+		w.hung = true
+	}
+	if !hang {
+		w.settle()
+	}
+	snap, _ := w.m.VerifSnapshot()
+	_, cachedIdle := snap[T]["idle"]
+	subscribed := false
+	for _, n := range w.m.VerifInterest()[T] {
+		if n == "idle" {
+			subscribed = true
+		}
+	}
+	busy := ""
+	if r, ok := snap[T]["busy"]; ok {
+		busy = stampOf(r)
+	}
+	c.count("evict-during-update", 1)
+	c.emit(obj{"op": "evict-during-update", "rt": rt, "obs": obj{"order": order, "evictionRanInsideTheUpdate": evictedEarly, "hang": hang,
+		"idleCached": cachedIdle, "idleSubscribed": subscribed, "busy": busy}})
+}
